@@ -56,10 +56,14 @@ BAD = [("bad.json", '{"workspace": {"encoding": '), ("missing.json", None), ("ba
        ("err.lua", "error('boom')"), ("notable.lua", "return 5"), ("bad2.json", "﻿{]")]
 
 
-def concrete_cases(idx, case):
-    """the three concrete forms of an abstract case: id/json, ws/json, ws with one file written in Lua"""
+FORMS = (("id", "id", False), ("ws", "ws", False), ("lua", "ws", True))
+
+
+def concrete_cases(idx, case, only=None):
+    """the three concrete forms of an abstract case: id/json, ws/json, ws with one file written in Lua
+    (only = index of the single form to produce, used when the case list is very long)"""
     out = []
-    for form, scheme, lua in (("id", "id", False), ("ws", "ws", False), ("lua", "ws", True)):
+    for form, scheme, lua in (FORMS if only is None else (FORMS[only],)):
         files = []
         n = len(case["files"])
         used_lua = False
@@ -158,8 +162,9 @@ def run_merge(ctx, prop):
     cases = tlc_cases(ctx, "ConfigMerge", cfgs, "CASE")
     vlib.build(["vh-analysis"])
     conc = []
+    all_forms = len(cases) <= 25000     # thorough: one form per case, rotating
     for i, c in enumerate(cases):
-        conc += concrete_cases(i, c)
+        conc += concrete_cases(i, c, None if all_forms else i % 3)
     # cases where only determinism is demanded are the order-sensitive ones: more fresh processes (the Lua form
     # only adds the Lua loader in front of the same merge, it stays in the two base processes)
     if os.environ.get("VERIF_CORRUPT"):  # binding self-test: one wrong expectation must be rejected
